@@ -134,6 +134,7 @@ Registrar reg(Prop{
     "C05",
     "Cases: node id 1..127; dictionary with a large domain (1..2100 bytes), integers, small/read-only domains and a string, SDO server parameters read-only; a junk history of 0..200 (400) frames on the server ids drawn from the full command alphabet "
     "(weighted meaningful commands and reserved-bit variants, random bytes, runs of block segments, conforming transfers of 5 kinds truncated after 1..12 requests, random DLC), in build n2 on both servers; then [client abort] or [NMT reset communication]; "
+    "Mode with-client-records: the dictionary also holds the SDO client records 1280h.. with COB-ID entries of type CO_TSDO_ID, and the history includes conforming expedited writes that switch a client COB-ID off, on, or move it. "
     "then 1..2 clean probe transfers from a covering set {expedited, segmented, block} x {upload, download} x {small, large object} run by the reference client. "
     "Oracle: the probe's outcome equals the reference outcome computed from the storage as it is when the probe starts (uploads return those bytes, downloads are confirmed and land exactly; every probe request is answered). "
     "Non-trivial: the server was not idle (block state, attached object or buffered bytes) when the recovery step started; the class histogram reports every distinct abstract server state (block state, object attached, toggle, buffer fill bucket, segment direction) from which recovery was checked. Distinct = distinct decoded choice sequence.",
